@@ -165,8 +165,9 @@ theorem decodeBool_enc (p : Bytes) (v : Bool) : decodeBool (p ++ encBool v) = .o
 
 theorem decodeByte_enc (p : Bytes) (v : UInt8) : decodeByte (p ++ encByte v) = .ok (v, 2) := by
   unfold decodeByte encByte
+  have hl : lastN 2 (p ++ [v, tByte]) = [v, tByte] := lastN_append' p _ 2 rfl
   have : p ++ [v, tByte] = (p ++ [v]) ++ [tByte] := by simp
-  rw [this]
+  rw [hl, this]
   simp only [snoc_length_ne, ↓reduceIte, decodeType_snoc]
   simp
 
